@@ -568,9 +568,14 @@ def synthesize(update_working_block=True, merge_io_vectors=True, block=None):
 
         # Now that we have all the wires built and mapped, walk all the blocks
         # and map the logic to the equivalent set of primitives in the system
-        out_mems = block_out.mem_map  # dictionary: PreSynth Map -> PostSynth Map
+        out_mems = {}  # dictionary: memory of the intermediate copy -> PostSynth memory
         for net in block_in.logic:
             _decompose(net, wirevector_map, out_mems, block_out)
+        # key mem_map by the memories of the original block (like io_map and reg_map),
+        # so that a memory_value_map written against the original design keeps working
+        for orig_mem, temp_mem in block_in.mem_map.items():
+            if temp_mem in out_mems:
+                block_out.mem_map[orig_mem] = out_mems[temp_mem]
 
     if update_working_block:
         set_working_block(block_out, no_sanity_check=True)
